@@ -41,6 +41,7 @@ type pomState struct {
 }
 
 type offScen struct {
+	mu    sync.Mutex
 	r     *run
 	c     *cf.Case
 	cl    *cluster
@@ -57,6 +58,8 @@ type offScen struct {
 	lastCommitUs  int64
 	lastCommitDone bool
 	commitsInFlight int
+	burst      chan struct{} // closed (and replaced) when an OffsetCommit answer reaches the client
+	commitCorr map[*simConn]map[int32]bool
 }
 
 func scenOffsets(r *run) {
@@ -83,14 +86,33 @@ func scenOffsets(r *run) {
 		r.finish("infra", "generated config invalid: "+err.Error())
 	}
 	gm.onCommit = os.onCommit
+	os.burst = make(chan struct{})
+	os.commitCorr = map[*simConn]map[int32]bool{}
 	onWireWrite = func(c *simConn, h reqHeader, frame []byte) {
 		if h.api == 8 {
 			os.commitsInFlight++
+			os.mu.Lock()
+			if os.commitCorr[c] == nil {
+				os.commitCorr[c] = map[int32]bool{}
+			}
+			os.commitCorr[c][h.corr] = true
+			os.mu.Unlock()
 		}
 	}
 	cl.onDeliver = func(c *simConn, corr int32) {
 		if os.commitsInFlight > 0 {
 			os.commitsInFlight-- // (approximation: any delivered response ends an in-flight commit)
+		}
+		os.mu.Lock()
+		var ch chan struct{}
+		if os.commitCorr[c][corr] {
+			delete(os.commitCorr[c], corr)
+			ch = os.burst
+			os.burst = make(chan struct{})
+		}
+		os.mu.Unlock()
+		if ch != nil {
+			close(ch)
 		}
 	}
 	// pre-stored offsets
@@ -263,6 +285,21 @@ func (os *offScen) doOp(om sarama.OffsetManager, op *cf.Op, actor int) {
 	ps := os.poms[fmt.Sprintf("%s/%d", op.Topic, op.Partition)]
 	if ps == nil {
 		return
+	}
+	if op.Arg == "on-commit-response" {
+		// act in the very instant an OffsetCommit answer reaches the client (or after a while if none comes): the
+		// application call then interleaves with the manager digesting that answer
+		os.mu.Lock()
+		ch := os.burst
+		os.mu.Unlock()
+		t := time.NewTimer(60 * time.Millisecond)
+		select {
+		case <-ch:
+			os.r.probe("mark-or-reset-released-by-commit-response")
+		case <-t.C:
+		case <-os.r.closeNow:
+		}
+		t.Stop()
 	}
 	po := &pomOp{kind: op.Op, off: op.Offset, meta: fmt.Sprintf("md%d", op.ID), actor: actor, callUs: k.nowUs()}
 	if os.c.Config.X["sameMeta"] == 1 {
